@@ -215,8 +215,11 @@ def _post_submit_now(engine, st, ctx, out):
         cl.append(("a pending future's idle job is submitted", "PC", z3.BoolVal(False), ["C05", "C03"]))
         return cl
     i_sub, ev = subs[0]
-    cl.append(("C06: the hand-over happens with the future's lock and the executor lock held, after re-checking done() under them", "PC",
-               z3.BoolVal(any(h[3] == "_me_lock" for h in ev.held) and any(h[3] == "_lock" for h in ev.held)), ["C06", "C04"]))
+    reads = [i for i, e in enumerate(st.trace) if e.kind == "state-read" and e.meth == "done" and i < i_sub
+             and any(h[3] == "_me_lock" for h in e.held) and z3.is_true(z3.simplify(e.recv == fid))]
+    cl.append(("C06: the hand-over happens with the future's lock and the executor lock held, after re-checking done() under the future's lock "
+               "(a cancel() cannot slip in between the check and the submission)", "PC",
+               z3.BoolVal(any(h[3] == "_me_lock" for h in ev.held) and any(h[3] == "_lock" for h in ev.held) and bool(reads)), ["C06", "C04"]))
     cl.append(("the delegate receives the job's own callable and arguments, unchanged", "PC",
                z3.And(z3.BoolVal(len(ev.args) == 1 and not ev.kwargs and ev.star is not None and ev.starkw is not None),
                       ev.args[0] == ctx["fn"] if ev.args else False,
